@@ -15,7 +15,12 @@
 //!      complete Deflated Explicit VR Little Endian file, through dicom_object::from_reader, and a sample of them
 //!      through open_file (by path, files in a private temporary directory removed afterwards);
 //! (12) the file meta group on its own: every truncation and every single-byte mutation (to 00, 01, FF) of an encoded
-//!      group (magic code + group) through FileMetaTable::from_reader.
+//!      group (magic code + group) through FileMetaTable::from_reader;
+//! (13) every sequence of up to 4 items / delimiters / sequence starts / pixel data starts where no sequence is open, and data sets
+//!      that are empty or start at the pixel data, through the lazy reader and through a collector created with an explicit
+//!      transfer syntax (reading calls in two orders);
+//! (14) DICOM JSON elements with every pair of value fields (Value / InlineBinary / BulkDataURI) in both orders under 13 VR codes,
+//!      through from_str and, when that succeeds, JSON serialisation and the text dump.
 //! A value or an error — never a panic; the slowest case is reported (a hang would show as the unit's timeout).
 use dicom_core::dictionary::DataDictionary;
 use dicom_core::value::range::{parse_date_range, parse_datetime_range, parse_time_range};
@@ -296,6 +301,82 @@ fn main() {
             }
         }
         Err(e) => t.fail(format!("building a file meta table failed: {}", e)),
+    }
+    // (13) delimiters where no sequence is open, through the lazy reader and through the collector created with an explicit
+    //      transfer syntax (no preamble, no file meta group); data sets that are empty or start at the pixel data
+    {
+        use dicom_object::collector::DicomCollector;
+        use dicom_parser::dataset::lazy_read::LazyDataSetReader;
+        let item = [0xFEu8, 0xFF, 0x00, 0xE0, 0, 0, 0, 0];
+        let item_undef = [0xFEu8, 0xFF, 0x00, 0xE0, 0xFF, 0xFF, 0xFF, 0xFF];
+        let item_delim = [0xFEu8, 0xFF, 0x0D, 0xE0, 0, 0, 0, 0];
+        let seq_delim = [0xFEu8, 0xFF, 0xDD, 0xE0, 0, 0, 0, 0];
+        let sq_undef = [0x08u8, 0x00, 0x40, 0x11, b'S', b'Q', 0, 0, 0xFF, 0xFF, 0xFF, 0xFF];
+        let native_px = [0xE0u8, 0x7F, 0x10, 0x00, b'O', b'W', 0, 0, 4, 0, 0, 0, 1, 2, 3, 4];
+        let encaps_px = [0xE0u8, 0x7F, 0x10, 0x00, b'O', b'B', 0, 0, 0xFF, 0xFF, 0xFF, 0xFF];
+        let pieces: [(&str, &[u8]); 6] = [("item", &item), ("item of undefined length", &item_undef), ("item delimiter", &item_delim), ("sequence delimiter", &seq_delim), ("sequence of undefined length", &sq_undef), ("start of encapsulated pixel data", &encaps_px)];
+        let mut streams: Vec<(String, Vec<u8>)> = vec![("an empty data set".to_string(), vec![]), ("a data set that starts at native pixel data".to_string(), native_px.to_vec()), ("a data set that starts at encapsulated pixel data and ends".to_string(), encaps_px.to_vec())];
+        // every sequence of up to 4 of the pieces
+        fn rec(pieces: &[(&str, &[u8])], cur: &mut Vec<usize>, left: usize, out: &mut Vec<(String, Vec<u8>)>) {
+            if !cur.is_empty() { out.push((cur.iter().map(|i| pieces[*i].0).collect::<Vec<_>>().join(", "), cur.iter().flat_map(|i| pieces[*i].1.iter().copied()).collect())); }
+            if left == 0 { return; }
+            for i in 0..pieces.len() { cur.push(i); rec(pieces, cur, left - 1, out); cur.pop(); }
+        }
+        rec(&pieces, &mut Vec::new(), 4, &mut streams);
+        let ts = TransferSyntaxRegistry.get("1.2.840.10008.1.2.1").unwrap();
+        for (what, bytes) in &streams {
+            t.case(&|| format!("LazyDataSetReader on [{}]", what), &mut || {
+                if let Ok(mut r) = LazyDataSetReader::new_with_ts(std::io::Cursor::new(&bytes[..]), ts) {
+                    for _ in 0..64 { match r.advance() { Some(Ok(tok)) => { if tok.skip().is_err() { break; } } _ => break } }
+                }
+            });
+            t.case(&|| format!("DicomCollector::new_with_ts on [{}]", what), &mut || {
+                let mut c = DicomCollector::new_with_ts(std::io::BufReader::new(std::io::Cursor::new(&bytes[..])), "1.2.840.10008.1.2.1");
+                let mut part = InMemDicomObject::new_empty();
+                let _ = c.read_dataset_up_to_pixeldata(&mut part);
+                let mut table = Vec::new();
+                let _ = c.read_basic_offset_table(&mut table);
+                let mut frag = Vec::new();
+                for _ in 0..4 { if !matches!(c.read_next_fragment(&mut frag), Ok(Some(_))) { break; } }
+                let mut rest = InMemDicomObject::new_empty();
+                let _ = c.read_dataset_to_end(&mut rest);
+            });
+            t.case(&|| format!("DicomCollector::new_with_ts, fragments first, on [{}]", what), &mut || {
+                let mut c = DicomCollector::new_with_ts(std::io::BufReader::new(std::io::Cursor::new(&bytes[..])), "1.2.840.10008.1.2.1");
+                let mut frag = Vec::new();
+                let _ = c.read_next_fragment(&mut frag);
+                let mut table = Vec::new();
+                let _ = c.read_basic_offset_table(&mut table);
+                let _ = c.read_file_meta();
+                let _ = c.read_preamble();
+            });
+        }
+    }
+    // (14) DICOM JSON: the value fields of an element in every order and combination, under several VRs
+    {
+        let fields = ["\"Value\":[1]", "\"Value\":[\"A\"]", "\"Value\":[]", "\"Value\":[{}]", "\"InlineBinary\":\"AAAA\"", "\"InlineBinary\":\"AA==\"", "\"BulkDataURI\":\"http://x/y\""];
+        for vr in ["OB", "OW", "UN", "SQ", "LO", "US", "PN", "AT", "DS", "UI", "FD", "OV", "ZZ"] {
+            for a in fields { for b in fields { for vr_first in [true, false] {
+                let text = if vr_first { format!("{{\"00081140\":{{\"vr\":\"{}\",{},{}}}}}", vr, a, b) } else { format!("{{\"00081140\":{{{},{},\"vr\":\"{}\"}}}}", a, b, vr) };
+                t.case(&|| format!("dicom_json::from_str (then to_string and dump) on {}", text), &mut || {
+                    if let Ok(obj) = dicom_json::from_str::<InMemDicomObject>(&text) {
+                        let _ = dicom_json::to_string(&obj);
+                        let mut sink = Vec::new();
+                        let _ = dicom_dump::DumpOptions::new().dump_object_to(&mut sink, &obj);
+                    }
+                });
+            } } }
+            for a in fields {
+                let text = format!("{{\"00081140\":{{\"vr\":\"{}\",{}}}}}", vr, a);
+                t.case(&|| format!("dicom_json::from_str (then to_string and dump) on {}", text), &mut || {
+                    if let Ok(obj) = dicom_json::from_str::<InMemDicomObject>(&text) {
+                        let _ = dicom_json::to_string(&obj);
+                        let mut sink = Vec::new();
+                        let _ = dicom_dump::DumpOptions::new().dump_object_to(&mut sink, &obj);
+                    }
+                });
+            }
+        }
     }
     println!("NOTE unit=C05.hostile3 slowest case {:?}: {}", t.slowest, t.slowest_what);
     println!("EXHAUSTIVE unit=C05.hostile3 cases={} mismatches={}", t.cases, t.bad);
